@@ -35,6 +35,8 @@ def leaves(tier):
             out.append("RxxV %s %s;" % (op, rhs_for(op, "b")))
     if tier != "thorough":
         out += ["x /= (y | 1);", "x &= y;"]  # the right operand is wider than the target
+    # statements only the bundled behaviours use otherwise
+    out += ["STORE_SLOT_CANCELLED(pkt, slot);", "cancel_slot;", 'fatal("C is broken");', "x = get_npc(pkt);"]
     out += ["y |= 0x100000001ULL; x /= y;", "y |= 0x100000001ULL; x %= y;", "x += (a < b);", "x <<= (a < b);", "y >>= !a;", "x *= (a && b);"]
     out += ["x /= ((a & 15) | 1);", "x %= ((a & 15) | 1);", "x = x / -3;", "y /= ((b & 15) | 1);"]
     out += ["RdV = x;", "RyyV = y;", "PeV = x;", "mem_store_u32((a & 0xfc), y);", "JUMP(x);", "int32_t t = x + 1; x = t * 2;", ";", "{ }", "{ x = x + 1; y = y + (uint32_t)x; }", "RxV += a;", "x = y = a;", "x = RdV = y = b;", "RdV = RxV = x = a;", "x = RdV = i++;", "RdV = x = clz32(b);", "y = x = RxV = RdV = a;"]
@@ -65,7 +67,7 @@ def space(tier):
         if not s.startswith("int32_t"):
             out.append(mk(s + " " + s, ("twice", s)))
     # pairs in both orders (source order must be kept)
-    base = L if tier == "thorough" else L[:8] + SMALL
+    base = L if tier == "thorough" else L[:8] + SMALL + [x for x in L if x.startswith(("STORE_SLOT", "cancel_slot", "fatal", "x = get_npc"))]
     for s in base:
         for t in SMALL:
             out.append(mk(s + " " + t, ("seq", s, t)))
